@@ -369,6 +369,21 @@ func TestCheck(t *testing.T) {
 		r0 := c.execute(nil, baseNone, -1, 0, false)
 		c.crashCheck(r0, 0, len(r0.rows), func(*row) crashfs.Options { return crashfs.Full }, contWanted)
 	}
+	// SIZE boundaries of one flush (record counts around powers of two, byte sizes around multiples of the
+	// 32 KiB log block) x whole-op crash images x tail cuts at block / write boundaries and at a stride. Runs
+	// first: it is cheap and must never be the part that a time cap cuts.
+	if sp := envInt("C14_SIZES_POW", ev.Pick(r, 12, 14)); sp > 0 {
+		mults := []int{1, 2, 4, 8}
+		if sp > 12 {
+			mults = []int{1, 2, 3, 4, 5, 6, 7, 8, 9, 10, 11, 12, 13, 14, 15, 16}
+		}
+		c.sizePass("sizes", sp, mults, int64(envInt("C14_SIZES_STRIDE", ev.Pick(r, 4099, 2053))), int64(envInt("C14_SIZES_TAIL", ev.Pick(r, 64, 128))), workers)
+	}
+	if envInt("C14_ONLY_SIZES", 0) > 0 {
+		crashLen, faultLen, baseCrashLen, baseFaultLen = 1, 1, 0, 0
+		os.Setenv("C14_MULTIFILE_LEN", "0")
+		os.Setenv("C14_FILL_KINDS", "0")
+	}
 	// order: the passes are independent; the largest one (crash, by increasing length) runs last so that a
 	// time cap only ever cuts the longest histories
 	if baseCrashLen > 0 {
@@ -414,7 +429,7 @@ func TestCheck(t *testing.T) {
 	rec := c.recoveries.Load()
 	r.Set("evaluations", rec+c.faultRuns.Load()+c.histories.Load())
 	r.Set("distinct_nontrivial", c.distinct())
-	r.Set("rule", "history = sequence over {a1,a2,a3,f,p1,p2,p3,r}, run on the empty log, on the 255-prune base, on a block-fill base, or on every multi-file layout base (height -> subset of 3 log files, boundary kind reopen / cleanup rotation, 255 prune records); crash image = (op-log prefix, namespace-lag prefix, per-file unsynced-data prefix, byte cut, fill none/zero/0xFF); images are deduplicated by (content hash, expected contents); non-trivial = distinct (image, expectation) pairs actually recovered with the real NewTendermintWALStore")
+	r.Set("rule", "history = sequence over {a1,a2,a3,f,p1,p2,p3,r}, run on the empty log, on the 255-prune base, on a block-fill base, or on every multi-file layout base (height -> subset of 3 log files, boundary kind reopen / cleanup rotation, 255 prune records), plus the sized-batch histories 'a1 f <n records> f|r' (n around powers of two and around multiples of the 32 KiB log block; tail cuts of the appended region at block / write boundaries, a stride and the last bytes); crash image = (op-log prefix, namespace-lag prefix, per-file unsynced-data prefix, byte cut, fill none/zero/0xFF); images are deduplicated by (content hash, expected contents); non-trivial = distinct (image, expectation) pairs actually recovered with the real NewTendermintWALStore")
 	r.Set("states", c.distinct())
 	r.Set("transitions", rec)
 	r.Set("traces_validated_against_impl", c.histories.Load()+c.faultRuns.Load())
